@@ -35,13 +35,13 @@ manifest = {
     },
     "engines": [
         {"name": "vmon", "path": "/verif/harness", "serves_properties": [c["property_id"] for c in checks if c["engine"] == "vmon"],
-         "kind_free_text": "Rust harness: seeded workload generators drive the real library; reference-model / specification-recogniser / position-map / panic-trap monitors judge every execution at the public API boundary"},
+         "kind_free_text": "Rust harness: seeded workload generators drive the real library; reference-model / specification-recogniser / position-map / panic-trap monitors judge every execution at the public API boundary; after the default build every check repeats a quarter of its cases against two more builds of the library (multithreaded feature; release profile)"},
         {"name": "c20", "path": "/verif/c20.py", "serves_properties": ["C20"],
          "kind_free_text": "first-use race trials (one process each) with failpoint hooks + offline history checker; same trial binary under ThreadSanitizer (-Zbuild-std) and Miri many-seeds"},
     ],
     "checks": checks,
     "not_applicable": na,
-    "notes": "Technique family: runtime monitoring and sanitizers. Verdicts are three-valued (exit 0 held-on-observed / 1 VIOLATION / 2 inconclusive). Known findings: /verif/known_findings.json.",
+    "notes": "Technique family: runtime monitoring and sanitizers. Verdicts are three-valued (exit 0 held-on-observed / 1 VIOLATION / 2 inconclusive). Known findings: /verif/known_findings.json. VERIF_SEED seeds every run; VERIF_SCALE scales workloads; VERIF_VARIANTS= (empty) switches the extra build variants off.",
 }
 json.dump(manifest, open(os.path.join(V, "MANIFEST.json"), "w"), indent=1)
 print("claimed", [c["property_id"] for c in checks], "na", [n["property_id"] for n in na])
